@@ -155,6 +155,20 @@ Definition kf_rename_text (c : container) : bool :=
 Definition kf_C06 (c : container) : bool :=
   kf_skip_text c || kf_skip_beside c || kf_rename_escape c || kf_rename_text c.
 
+(* C06-7 (configuration): a struct without rename_all whose unrenamed, unskipped field is changed by
+   the configured default_field_case (anything but snake_case / lowercase; an unknown setting counts as
+   camelCase). serde does not know the setting: unattributed items keep their Rust name on the wire.
+   Enum variants are not affected (compute_variant_name has no default case). Empty under the
+   default configuration. *)
+Definition cfg_differs (dfc : str) (it : item) : bool :=
+  negb (has_skip it) &&
+  match rename_of it with
+  | Some _ => false
+  | None => negb (str_eqb (apply_naming_convention (default_case dfc) (unraw (it_ident it))) (unraw (it_ident it)))
+  end.
+Definition kf_config_case (dfc : str) (c : container) : bool :=
+  is_struct (c_kind c) && match container_rule c with None => existsb (cfg_differs dfc) (c_items c) | Some _ => false end.
+
 (* ------------------------------------------------------------------ other attributes *)
 (* what serde reads of an item when every attribute other than rename and skip is erased *)
 Definition is_other (m : meta) : bool := match m with MOther _ _ => true | _ => false end.
